@@ -305,7 +305,7 @@ theorem takeWhile_noclose (ops : List Op) : ∀ op ∈ ops.takeWhile (· != .clo
     intro op hop
     by_cases ho : o = .close
     · subst ho
-      simp [List.takeWhile_cons] at hop
+      simp at hop
     · have hne : (o != Op.close) = true := by simpa using ho
       simp only [List.takeWhile_cons, hne, if_true, List.mem_cons] at hop
       rcases hop with rfl | hop
